@@ -69,6 +69,10 @@ func (d *discardProc) UpdateSignatureCertificate(*core.CertificateChainEntry) er
 // extension which names the CRL issuer itself - what an indirect-CRL tool writes for every entry.
 var c17EntryIssuerExt bool
 
+// c17EntryUniqueExt: when set, entry i carries a non-critical extension whose identifier is its own
+// (1.3.6.1.4.1.55555.1.<2^21+i>): whatever the reader notes down per extension identifier grows with the list.
+var c17EntryUniqueExt bool
+
 func c17Doc(n int, pemEnc bool) []byte {
 	p := world.Std()
 	s := world.SimpleCRL(p.CA, 1)
@@ -82,7 +86,11 @@ func c17Doc(n int, pemEnc bool) []byte {
 		exts = []pkix.Extension{{Id: asn1.ObjectIdentifier{2, 5, 29, 29}, Value: gn}}
 	}
 	for i := 0; i < n; i++ {
-		s.Entries = append(s.Entries, world.RevEntry{Serial: new(big.Int).Add(base, big.NewInt(int64(i))), Date: t, Exts: exts})
+		ex := exts
+		if c17EntryUniqueExt {
+			ex = []pkix.Extension{{Id: asn1.ObjectIdentifier{1, 3, 6, 1, 4, 1, 55555, 1, 1<<21 + i}, Value: []byte{0x05, 0x00}}}
+		}
+		s.Entries = append(s.Entries, world.RevEntry{Serial: new(big.Int).Add(base, big.NewInt(int64(i))), Date: t, Exts: ex})
 	}
 	d := s.DER()
 	if pemEnc {
@@ -672,6 +680,16 @@ func RunC17(tier string, args []string) int {
 		}
 	}
 	c17ReaderFailingStore(chk, 1<<maxK, dir)
+	// the reader's live heap for lists whose entries carry extensions: the same one naming the issuer in every entry, and
+	// one with an identifier of its own in every entry
+	c17EntryIssuerExt = true
+	c17Reader(chk, 1<<maxK, false, dir)
+	c17EntryIssuerExt = false
+	c17EntryUniqueExt = true
+	c17Reader(chk, 1<<maxK, false, dir)
+	c17EntryUniqueExt = false
+	evals += 2
+	distinct += 2
 	algEvals := c17ReaderAlgs(chk, 1<<maxK, dir)
 	evals += algEvals
 	distinct += algEvals
